@@ -11,7 +11,7 @@ import (
 func init() {
 	Registry["C14"] = checkC14
 	Descriptions["C14"] = "C14-encode-ref (the BER tree every control's Encode builds, on every path, equals the published grammar: RFC 4511 4.1.11 Control, RFC 2696 paging value, draft-behera-10 password policy value, draft-vchu-00 warning; the type child is the constant GetControlType returns), " +
-		"C14-roundtrip (for every control type and every encode path the request decoder, interpreted symbolically on the tree that Encode built, returns a control of the same type whose every field comes back from the node that carried it through value-preserving conversions or recognised inverse pairs), " +
+		"C14-roundtrip (for every control type and every encode path the request decoder, interpreted symbolically on the tree that Encode built, returns a control of the same type whose every field comes back from the node that carried it through value-preserving conversions or recognised inverse pairs, and every error branch the decoder takes on the way is decided never to be taken for any value the field types (narrowed by the encode path and the Behera constructor) admit), " +
 		"C14-attach (responses put encodeControls(r.controls) at envelope child [2] in slice order; requests decode envelope child [2] element by element in order), " +
 		"C14-behera (truth table of NewControlBeheraPasswordPolicy: success => at most one of grace/expire/error set and error <= 8; fields come from the three options). Run-time value equality is not decided beyond identity data flow."
 }
